@@ -29,6 +29,9 @@ impl Canon {
         self.known.push(u);
         self.next
     }
+    pub fn peek(&self, u: &Uuid) -> Option<u64> {
+        if u.is_nil() { Some(0) } else { self.ids.get(u).cloned() }
+    }
     pub fn seen(&self, u: &Uuid) -> bool {
         u.is_nil() || self.ids.contains_key(u)
     }
